@@ -22,18 +22,32 @@
     negligibility test on its current value); building blocks `c09_givens_annihilate`, `c09_trideig_qrstep_similarity` (one
     `tridiagonal_qr_step` is an orthogonal similarity that loses NO entry); corollaries `c09_trideig_exact` (`T₀ Z = Z D` exactly when
     the budget is `0`) and `c09_trideig_eigH_spec` (the `eig_spec` obligation of `C01E.ExactKernels` for `HermSolver.eigH`).
-  * UpperHessenbergSchur, exact-arithmetic building blocks of the `U T Uᵀ` invariant (`c09_schur_similarity_partial_*`): the ideal
-    reflector maps its defining vector to `β e₁` exactly (`c09_schur_similarity_partial_reflect`: the bulge entries zeroed by the
-    clean-up loop are exact zeros), the standardisation rotation of `split_off_two_rows` annihilates `T(iu,iu−1)` exactly
-    (`c09_schur_similarity_partial_standardise`: the explicit `= 0` overwrites an exact zero), and the exceptional shifts keep
-    `T + ex_shift·I_{0..iu}` entrywise (`c09_schur_similarity_partial_shift`).
-  NOT proved: the whole-run `c09_schur_similarity` (`U T Uᵀ = H − P`).  Missing: (i) the window argument — the left/right
-  applications restricted to columns `≥ k` / rows `≤ min(iu,k+3)` equal the full products given the Hessenberg zero pattern;
-  (ii) three further perturbation sources that are NOT explicit zeroings and make the similarity inexact EVEN IN EXACT ARITHMETIC:
-  the negligible `T(il, il−1)` stays stored and column `il−1` is not transformed by the sweep, a sweep started at `im > il` only
-  negates `T(im, im−1)` (Wilkinson's two-small-subdiagonals approximation), and `makeHouseholder`'s degenerate exit drops a tail
-  with `t1² + t2² ≤ min`.  A whole-run statement therefore needs a `P` that collects these as well (same treatment as
-  `c09_trideig_decomp`); it is not attempted here.
+  * whole-run similarity of `UpperHessenbergSchur::compute` in exact arithmetic (field instance, exact `sqrt ≥ 0`, `min ≥ 0`, all `n`, all
+    upper Hessenberg inputs, every run that returns normally): `c09_schur_similarity`: `Uᵀ H U = T + E`, `UᵀU = UUᵀ = 1`, `E` bounded (as a
+    bilinear form on unit vectors, hence entrywise) by the explicit ghost budget `C09SS.schurDrop` = the sum over the run of the entries the
+    algorithm overwrites with `0` or does not transform: the negligible sub-diagonal entries at 1x1 / 2x2 deflations, the first column of
+    each sweep (`T(im, im−1)` is kept or only negated), the bulge entries of skipped / degenerate reflectors and of a skipped closing rotation;
+    what the 2x2 standardisation and every applied ideal reflector / rotation overwrite are EXACT zeros.  `c09_schur_exact`: budget `0` ⇒
+    `Uᵀ H U = T` and `H = U T Uᵀ` exactly.  Per-step structure (`T ← QᵀTQ − D`, `U ← UQ`, composed over the loop by induction on the
+    iteration counter with the invariant `Uᵀ H U = T + ex·D_m + E`): `c09_schur_loop`, `c09_schur_step_reflector` (incl. the WINDOW
+    argument), `c09_schur_step_francis`, `c09_schur_step_split`, `c09_schur_step_shift`, `c09_schur_budget`, `c09_schur_drop_reflector`,
+    `c09_schur_drop_first_zero`, `c09_schur_drop_nonneg`; building blocks `c09_schur_similarity_partial_reflect/standardise/shift`.
+    Machinery: `Proofs/C09SchurMat.lean` (matrices, budget), `C09SchurFn.lean` (windows, bulge pattern), `C09SchurArr.lean`,
+    `C09SchurSweep.lean`, `C09SchurFrancis.lean`, `C09SchurDefl.lean`, `C09SchurMain.lean`.
+    NOT proved for the Schur model: that `schurDrop = O(eps·‖H‖)` (each term passed a negligibility test or Wilkinson's start criterion,
+    but the criterion-to-bound step and convergence are not formalised).
+  * `UpperHessenbergEigen` on top of the Schur similarity (exact arithmetic): the reported eigenvalues are the eigenvalues of the diagonal
+    blocks of `T` — every block left unsplit has a negative discriminant (loop invariant, `c09_schur_unsplit_negdisc`) and `block2` then
+    returns the roots of its characteristic polynomial (`c09_hesseig_block_eigenvalues`, `c09_hesseig_eigenvalues`, `c09_hesseig_evok`);
+    the back-substitution for a real eigenvalue solves `T y = λ y` exactly, 2x2 blocks by Cramer's rule, overflow rescaling included
+    (`c09_hesseig_backsub_real`), the back transformation is `U y` (`c09_hesseig_backtransform`), hence for the whole
+    `UpperHessenbergEigen::compute` `H x = λ x + scale·(U E) y` for every real pair without `w == 0` fallback
+    (`c09_hesseig_real_eigvec_partial`); the complex-pair branch likewise solves `T y = (p − i q) y` exactly in (re, im) pairs
+    (`c09_hesseig_backsub_cplx`), hence `H (xr + i xi) = λ (xr + i xi) + scale·(U E)(yr + i yi)` for every complex pair without
+    `vr == vi == 0` fallback (`c09_hesseig_cplx_eigvec_partial`).  Machinery `Proofs/C09EigBlock.lean`, `C09EigReal.lean`, `C09EigBack.lean`,
+    `C09EigCplx.lean`, `C09EigMain.lean`.
+    NOT proved there: eigenvalues repeated in another diagonal block above (the code perturbs the zero divisor by `eps·norm` on purpose,
+    so the exact statement is false there), the `tnorm == 0` exit, the composition with `eigenvectors()` (pairing + `normalize`).
 
   NOT proved (stated at full strength here, out of reach of this method — rounding and convergence):
     "T Z = Z diag(d), ZᵀZ = I, U T Uᵀ = H, ‖Hx − λx‖ small, all within a modest multiple of n·eps·norm" IN FLOATING POINT
@@ -52,6 +66,9 @@ import SpectraVerif.Proofs.C09Cdiv
 import SpectraVerif.Proofs.C09OrthU
 import SpectraVerif.Proofs.C09SimEig
 import SpectraVerif.Proofs.C09SimU
+import SpectraVerif.Proofs.C09SchurMain
+import SpectraVerif.Proofs.C09EigMain
+import Mathlib.Analysis.Real.Sqrt
 import SpectraVerif.Gen.Wilk
 
 namespace C09
@@ -509,11 +526,11 @@ section schur_similarity
 variable {K : Type} [Field K] [LinearOrder K] [IsStrictOrderedRing K] (F : FieldFns K)
 open HessSchur
 
-/-- **`c09_schur_similarity`, partial (1/3): an ideal reflector reflects.**  With an exact non-negative `sqrt`, either
+/-- **building block of `c09_schur_similarity` (1/3): an ideal reflector reflects.**  With an exact non-negative `sqrt`, either
     `makeHouseholder(c0, t1, t2)` took its degenerate exit (`t1² + t2² ≤ min`: `τ = 0`, `β = c0`, the tail is treated as `0` — a
     dropped quantity), or `P (c0, t1, t2)ᵀ = (β, 0, 0)ᵀ` EXACTLY for `P = I − τ v vᵀ`: after `T(k, k−1) = β` the two entries below it,
     which `perform_francis_qr_step` leaves in place and zeroes in its clean-up loop, are exact zeros of `Pᵀ T P`.
-    (The whole-run `U T Uᵀ` statement is NOT proved: see the header.) -/
+    (Building block of the whole-run statement `c09_schur_similarity` below.) -/
 theorem c09_schur_similarity_partial_reflect (hs : ∀ x : K, 0 ≤ x → F.sqrt x * F.sqrt x = x) (hs0 : ∀ x : K, 0 ≤ F.sqrt x)
     (hmin : 0 ≤ F.minPos) (c0 t1 t2 : K) :
     let _ : Sc K := scOfField F
@@ -547,6 +564,358 @@ theorem c09_schur_similarity_partial_shift (t : Mat K) (h : @C09Mat.WF K t) (iu 
         t.get i j + (if i = j ∧ i ≤ iu then ex else 0) := (C09SimU.computeShift_shifted F t h iu iter ex hr hc).2.2.2
 
 end schur_similarity
+
+section deflation_test
+variable {α : Type} [Add α] [Sub α] [Mul α] [Div α] [Neg α] [Sc α]
+
+/-- **the sub-diagonal entries a deflation drops passed the code's negligibility test** (any scalar type): `find_small_subdiag(iu)` returns
+    `il` with `il = 0` or `|T(il, il−1)| ≤ max(eps·(|T(il−1,il−1)| + |T(il,il)|), near_0)` tested true.  The 1x1 deflation (`il = iu`) drops
+    exactly `T(il, il−1)`, the 2x2 split (`il = iu − 1`) drops exactly `T(il, il−1)`, and a Francis sweep starting at `im = il` leaves exactly
+    this entry untransformed: the terms (a) and the `im = il` case of (b) of the budget of `c09_schur_similarity` are each at most this
+    threshold times the explicit factors there. -/
+theorem c09_schur_deflation_negligible (t : Mat α) (near0 : α) (iu : Nat) :
+    HessSchur.findSmallSubdiag t near0 iu = 0 ∨
+      Sc.le (Sc.abs (t.get (HessSchur.findSmallSubdiag t near0 iu) (HessSchur.findSmallSubdiag t near0 iu - 1)))
+        (HessSchur.maxi ((Sc.abs (t.get (HessSchur.findSmallSubdiag t near0 iu - 1) (HessSchur.findSmallSubdiag t near0 iu - 1)) +
+          Sc.abs (t.get (HessSchur.findSmallSubdiag t near0 iu) (HessSchur.findSmallSubdiag t near0 iu))) * Sc.eps) near0) = true :=
+  C09SS.findSmallSubdiag_spec t near0 iu
+
+end deflation_test
+
+section schur_whole_run
+variable {K : Type} [Field K] [LinearOrder K] [IsStrictOrderedRing K] (F : FieldFns K)
+open HessSchur C09SS C09Sim
+open scoped Matrix
+
+/-- **`c09_schur_similarity`: whole-run similarity of `UpperHessenbergSchur::compute` in exact arithmetic** (field instance
+    `scOfField F`, exact non-negative `sqrt`, `min ≥ 0`), for EVERY size `n`, EVERY well-formed `n × n` upper Hessenberg input `H` and
+    EVERY run that returns normally (every outcome of the deflation tests, the shift strategy incl. the exceptional shifts at
+    iterations 10/30, the start row `im` of each sweep, the reflector/rotation guards).  With `U = matrix_U()`, `T = matrix_T()` as
+    Mathlib matrices (`C09Sim.mat n (C09SS.gf F m)` = the `n × n` matrix of the entries `m(i,j)`):
+      `Uᵀ · H · U = T + E`,   `UᵀU = UUᵀ = 1`,
+    where the error term `E` is bounded, as a bilinear form on vectors of Euclidean norm `≤ 1` (spectral norm) and hence entrywise,
+    by the explicit ghost budget `C09SS.schurDrop F n H` = the SUM OVER THE RUN of (`C09SS.mainLoopDrop`, `performFrancisDrop`, `francisDrop`):
+      (a) `|T(iu, iu−1)|` at each 1x1 deflation and `|T(iu−1, iu−2)|` at each 2x2 split — the sub-diagonal entries the code judged
+          negligible and overwrote with `0`;
+      (b) per Francis sweep, first column: `‖P·(x,0,0)ᵀ − (±x,0,0)ᵀ‖₁`, `x = T(im, im−1)` — the code does not transform column `im−1`
+          (it keeps `x` when `im = il`, where `x` is the negligible entry found by `find_small_subdiag`, and only negates it when
+          `im > il`, Wilkinson's two-small-sub-diagonals start); `0` when `x = 0` (`c09_schur_drop_first_zero`);
+      (c) per later reflector: `0` when it is applied and `makeHouseholder` is non-degenerate (`P v = β e₁` exactly), else the two bulge
+          entries `|T(k+1,k−1)| + |T(k+2,k−1)|` that the clean-up loop zeroes (skipped reflector `|β| ≤ near_0`, or degenerate exit
+          `t1² + t2² ≤ min`) (`c09_schur_drop_reflector`);
+      (d) `|T(iu, iu−2)|` when the closing rotation is skipped (`|r| ≤ near_0`).
+    What the 2x2 standardisation and the applied closing rotation overwrite with `0` are EXACT zeros (no contribution).
+    NOT proved: that the budget is `O(eps·‖H‖)` (needs the convergence analysis), rounding. -/
+theorem c09_schur_similarity (hs : ∀ x : K, 0 ≤ x → F.sqrt x * F.sqrt x = x) (hs0 : ∀ x : K, 0 ≤ F.sqrt x) (hmin : 0 ≤ F.minPos)
+    (n : Nat) (h : Mat K) (hw : @C09Mat.WF K h) (hr : h.rows = n) (hc : h.cols = n) (hH : @C09Hess.Hess K (scOfField F) n h)
+    (r : HessSchur.Decomp K) (hok : @HessSchur.compute K _ _ _ _ _ (scOfField F) n h = Res.ok r) :
+    ∃ E : Matrix (Fin n) (Fin n) K,
+      (mat n (gf F r.u))ᵀ * mat n (gf F h) * mat n (gf F r.u) = mat n (gf F r.t) + E ∧
+      (mat n (gf F r.u))ᵀ * mat n (gf F r.u) = 1 ∧ mat n (gf F r.u) * (mat n (gf F r.u))ᵀ = 1 ∧
+      (∀ x y : Fin n → K, x ⬝ᵥ x ≤ 1 → y ⬝ᵥ y ≤ 1 → |x ⬝ᵥ (E *ᵥ y)| ≤ schurDrop F n h) ∧
+      (∀ i j, |E i j| ≤ schurDrop F n h) := by
+  obtain ⟨E, hE, sim, o1, o2⟩ := compute_sim F hs hs0 hmin n h hw hr hc hH r hok
+  exact ⟨E, sim, o1, o2, hE, fun i j => bnd_entry hE i j⟩
+
+/-- **exact corollary**: when the budget is `0` the returned `T` is an EXACT orthogonal similarity transform of `H`:
+    `Uᵀ H U = T` and `H = U T Uᵀ` — so the 1x1 / 2x2 diagonal blocks of the quasi-triangular `T` (`c09_schur_quasi_triangular`) carry
+    exactly the spectrum of `H`. -/
+theorem c09_schur_exact (hs : ∀ x : K, 0 ≤ x → F.sqrt x * F.sqrt x = x) (hs0 : ∀ x : K, 0 ≤ F.sqrt x) (hmin : 0 ≤ F.minPos)
+    (n : Nat) (h : Mat K) (hw : @C09Mat.WF K h) (hr : h.rows = n) (hc : h.cols = n) (hH : @C09Hess.Hess K (scOfField F) n h)
+    (r : HessSchur.Decomp K) (hok : @HessSchur.compute K _ _ _ _ _ (scOfField F) n h = Res.ok r) (h0 : schurDrop F n h = 0) :
+    (mat n (gf F r.u))ᵀ * mat n (gf F h) * mat n (gf F r.u) = mat n (gf F r.t) ∧
+    mat n (gf F h) = mat n (gf F r.u) * mat n (gf F r.t) * (mat n (gf F r.u))ᵀ := by
+  obtain ⟨E, hE, sim, o1, o2⟩ := compute_sim F hs hs0 hmin n h hw hr hc hH r hok
+  rw [h0] at hE
+  have hE0 := bnd_eq_zero hE
+  rw [hE0, add_zero] at sim
+  refine ⟨sim, ?_⟩
+  rw [← sim]
+  have : mat n (gf F r.u) * ((mat n (gf F r.u))ᵀ * mat n (gf F h) * mat n (gf F r.u)) * (mat n (gf F r.u))ᵀ =
+      (mat n (gf F r.u) * (mat n (gf F r.u))ᵀ) * mat n (gf F h) * (mat n (gf F r.u) * (mat n (gf F r.u))ᵀ) := by
+    simp only [Matrix.mul_assoc]
+  rw [this, o2, Matrix.one_mul, Matrix.mul_one]
+
+/-- the budget is a sum of magnitudes -/
+theorem c09_schur_drop_nonneg (n : Nat) (h : Mat K) : 0 ≤ schurDrop F n h := schurDrop_nonneg F n h
+
+/-- **per-step structure, the loop invariant** (`C09SS.MInv F n m H ex s b`: `T` has the block structure and Hessenberg shape,
+    `U` orthonormal, and `Uᵀ H U = T + ex·D_m + E` with `E` within the budget `b`; `D_m` = identity on the `m` active rows, `ex` = the
+    accumulated exceptional shift): if it holds when the `while (iu >= 0)` loop is entered with ANY state, and the loop ends normally,
+    then `Uᵀ H U = T + E'` on exit with `E'` within `b + mainLoopDrop` — proved by induction on the iteration counter, each of the four
+    branches being one of the step theorems below. -/
+theorem c09_schur_loop (hs : ∀ x : K, 0 ≤ x → F.sqrt x * F.sqrt x = x) (hs0 : ∀ x : K, 0 ≤ F.sqrt x) (hmin : 0 ≤ F.minPos)
+    (n : Nat) (near0 : K) (H : Matrix (Fin n) (Fin n) K) (f m iter total : Nat) (ex : K) (s : TU K) (b : K)
+    (h : MInv F n m H ex s b)
+    (hd : (@mainLoop K _ _ _ _ _ (scOfField F) n near0 f m iter total ex s).exit = Exit.done) :
+    ∃ E : Matrix (Fin n) (Fin n) K, Bnd E (b + C09SS.mainLoopDrop F n near0 f m iter total ex s) ∧
+      (mat n (gf F (@mainLoop K _ _ _ _ _ (scOfField F) n near0 f m iter total ex s).u))ᵀ * H *
+          mat n (gf F (@mainLoop K _ _ _ _ _ (scOfField F) n near0 f m iter total ex s).u) =
+        mat n (gf F (@mainLoop K _ _ _ _ _ (scOfField F) n near0 f m iter total ex s).t) + E :=
+  mainLoop_sim F hs hs0 hmin n near0 H f m iter total ex s b h hd
+
+/-- **one trip of the reflector loop of `perform_francis_qr_step` is `T ← PᵀTP − D`, `U ← UP`** with `P` the 3x3 reflector in rows /
+    columns `k, k+1, k+2` (ideal: `τ(τ vᵀv − 2) = 0`): it keeps the sweep invariant `C09SS.SInv` (`Uᵀ H U = L + S + E`, `L` = the logical
+    `T` in which the stale bulge entries of the already chased columns count as `0`, zero pattern = upper Hessenberg + 3-entry bulge)
+    and the budget grows by `francisDrop` = the `ℓ¹` norm of the spike `D` in column `k − 1`.  The WINDOW argument is inside: the left
+    application restricted to the columns `≥ k` and the right one restricted to the rows `≤ min(iu, k+3)` equal the full products because
+    of the zero pattern. -/
+theorem c09_schur_step_reflector (hs : ∀ x : K, 0 ≤ x → F.sqrt x * F.sqrt x = x) (hs0 : ∀ x : K, 0 ≤ F.sqrt x) (hmin : 0 ≤ F.minPos)
+    (n il im iu : Nat) (near0 : K) (fv : K × K × K) (H : Matrix (Fin n) (Fin n) K) (ex : K)
+    (s : TU K) (k : Nat) (b : K) (hik : im ≤ k) (hk2 : k + 2 ≤ iu) (hiu : iu < n) (h : SInv F n im iu k H ex s b) :
+    SInv F n im iu (k + 1) H ex (@francisBody K _ _ _ _ _ (scOfField F) n il im iu near0 fv s k)
+      (b + francisDrop F il im near0 fv s k) :=
+  francisBody_sinv F (fun c0 t1 t2 => C09OrthU.makeHouseholder_ideal F hs hs0 hmin c0 t1 t2) n il im iu near0 fv H ex s k b hik hk2 hiu h
+
+/-- what a reflector that is not the first of its sweep drops: at most the two bulge entries, nothing in the ideal non-degenerate case -/
+theorem c09_schur_drop_reflector (hs : ∀ x : K, 0 ≤ x → F.sqrt x * F.sqrt x = x) (hs0 : ∀ x : K, 0 ≤ F.sqrt x) (hmin : 0 ≤ F.minPos)
+    (il im : Nat) (near0 : K) (fv : K × K × K) (s : TU K) (k : Nat) (hk0 : k ≠ 0) (hne : k ≠ im) :
+    francisDrop F il im near0 fv s k ≤ |@Mat.get K (scOfField F) s.t (k + 1) (k - 1)| + |@Mat.get K (scOfField F) s.t (k + 2) (k - 1)| ∧
+    (F.minPos < @Mat.get K (scOfField F) s.t (k + 1) (k - 1) * @Mat.get K (scOfField F) s.t (k + 1) (k - 1) +
+        @Mat.get K (scOfField F) s.t (k + 2) (k - 1) * @Mat.get K (scOfField F) s.t (k + 2) (k - 1) →
+      @Sc.gt K (scOfField F) (@Sc.abs K (scOfField F) (@makeHouseholder K _ _ _ _ _ (scOfField F) (@Mat.get K (scOfField F) s.t k (k - 1))
+        (@Mat.get K (scOfField F) s.t (k + 1) (k - 1)) (@Mat.get K (scOfField F) s.t (k + 2) (k - 1))).beta) near0 = true →
+      francisDrop F il im near0 fv s k = 0) :=
+  francisDrop_nonfirst F hs hs0 hmin il im near0 fv s k hk0 hne
+
+/-- a sweep that starts at an exact zero sub-diagonal entry loses nothing at its first column -/
+theorem c09_schur_drop_first_zero (il im : Nat) (near0 : K) (fv : K × K × K) (s : TU K)
+    (h0 : @Mat.get K (scOfField F) s.t im (im - 1) = 0) (h1 : @Mat.get K (scOfField F) s.t (im + 1) (im - 1) = 0)
+    (h2 : @Mat.get K (scOfField F) s.t (im + 2) (im - 1) = 0) : francisDrop F il im near0 fv s im = 0 :=
+  francisDrop_first_zero F il im near0 fv s h0 h1 h2
+
+/-- **one `perform_francis_qr_step` (reflector loop + closing 2x2 rotation + clean-up loop) is `T ← QᵀTQ − D`, `U ← UQ`**, `Q` a product
+    of ideal 3x3 reflectors and one unit rotation: for an upper Hessenberg `T` with `T(iu+1, iu) = 0`, `Uᵀ H U = T + S + E` is carried
+    to the result, the budget of `E` growing by `performFrancisDrop`; `makeGivens` returns `r = c·p − s·q` and annihilates, so an applied
+    closing rotation drops nothing, and after the clean-up loop the stored `T` IS the logical one. -/
+theorem c09_schur_step_francis (hs : ∀ x : K, 0 ≤ x → F.sqrt x * F.sqrt x = x) (hs0 : ∀ x : K, 0 ≤ F.sqrt x) (hmin : 0 ≤ F.minPos)
+    (n il im iu : Nat) (near0 : K) (fv : K × K × K) (H : Matrix (Fin n) (Fin n) K) (ex : K) (s : TU K) (b : K) (him : im + 2 ≤ iu) (hiu : iu < n)
+    (hw : @C09Mat.WF K s.t) (hr : s.t.rows = n) (hc : s.t.cols = n) (hH : @C09Hess.Hess K (scOfField F) n s.t)
+    (hz : iu + 1 < n → @Mat.get K (scOfField F) s.t (iu + 1) iu = 0) (orth : C09Orth.ColsOrth F n s.u)
+    (E : Matrix (Fin n) (Fin n) K) (hE : Bnd E b)
+    (sim : (mat n (gf F s.u))ᵀ * H * mat n (gf F s.u) = mat n (gf F s.t) + Sm n (iu + 1) ex + E) :
+    ∃ E' : Matrix (Fin n) (Fin n) K, Bnd E' (b + performFrancisDrop F n il im iu near0 fv s) ∧
+      (mat n (gf F (@performFrancis K _ _ _ _ _ (scOfField F) n il im iu near0 fv s).u))ᵀ * H *
+          mat n (gf F (@performFrancis K _ _ _ _ _ (scOfField F) n il im iu near0 fv s).u) =
+        mat n (gf F (@performFrancis K _ _ _ _ _ (scOfField F) n il im iu near0 fv s).t) + Sm n (iu + 1) ex + E' :=
+  performFrancis_sim F hs (fun c0 t1 t2 => C09OrthU.makeHouseholder_ideal F hs hs0 hmin c0 t1 t2) n il im iu near0 fv H ex s b him hiu
+    hw hr hc hH hz orth E hE sim
+
+/-- **`split_off_two_rows` is a similarity step** (2x2 standardisation, window rows `p, p+1`): both diagonal entries take the accumulated
+    shift, the rotation (if the block has real eigenvalues) is applied to `T` and `U`, the `(2,1)` entry it overwrites with `0` IS `0`,
+    the active window shrinks by two rows and the only thing dropped is the sub-diagonal entry `T(iu−1, iu−2)` in front of the block. -/
+theorem c09_schur_step_split (hs : ∀ x : K, 0 ≤ x → F.sqrt x * F.sqrt x = x) (hs0 : ∀ x : K, 0 ≤ F.sqrt x) (n p : Nat)
+    (H : Matrix (Fin n) (Fin n) K) (ex : K) (s : TU K) (b : K) (hiu : p + 1 < n)
+    (hw : @C09Mat.WF K s.t) (hr : s.t.rows = n) (hc : s.t.cols = n) (hH : @C09Hess.Hess K (scOfField F) n s.t)
+    (hz : p + 1 + 1 < n → @Mat.get K (scOfField F) s.t (p + 1 + 1) (p + 1) = 0) (orth : C09Orth.ColsOrth F n s.u)
+    (E : Matrix (Fin n) (Fin n) K) (hE : Bnd E b)
+    (sim : (mat n (gf F s.u))ᵀ * H * mat n (gf F s.u) = mat n (gf F s.t) + Sm n (p + 1 + 1) ex + E) :
+    ∃ E' : Matrix (Fin n) (Fin n) K, Bnd E' (b + (if 1 < p + 1 then |@Mat.get K (scOfField F) s.t p (p - 1)| else 0)) ∧
+      (mat n (gf F (@splitOffTwoRows K _ _ _ _ _ (scOfField F) n (p + 1) ex s).u))ᵀ * H *
+          mat n (gf F (@splitOffTwoRows K _ _ _ _ _ (scOfField F) n (p + 1) ex s).u) =
+        mat n (gf F (@splitOffTwoRows K _ _ _ _ _ (scOfField F) n (p + 1) ex s).t) + Sm n p ex + E' :=
+  split_sim F hs hs0 n p H ex s b hiu hw hr hc hH hz orth E hE sim
+
+/-- **the exceptional shifts as matrices**: `compute_shift` returns `(T', ex')` with `T' + ex'·D = T + ex·D`, `D` = identity on rows `0..iu` -/
+theorem c09_schur_step_shift (n iu iter : Nat) (ex : K) (t : Mat K) (hw : @C09Mat.WF K t) (hr : t.rows = n) (hc : t.cols = n) (hiu : iu < n) :
+    mat n (gf F (@computeShift K _ _ _ _ _ (scOfField F) iu iter ex t).1) +
+      Sm n (iu + 1) (@computeShift K _ _ _ _ _ (scOfField F) iu iter ex t).2.1 = mat n (gf F t) + Sm n (iu + 1) ex :=
+  shift_sim F n iu iter ex t hw hr hc hiu
+
+/-- the budget predicate: invariant under orthogonal conjugation, `+|d|` per added entry, bounds every entry, `0` forces `E = 0` -/
+theorem c09_schur_budget {n : Nat} (E Q : Matrix (Fin n) (Fin n) K) (b : K) (hQ : Qᵀ * Q = 1) (h : Bnd E b) (a c : Nat) (d : K) :
+    Bnd (Qᵀ * E * Q) b ∧ Bnd (E + mat n (sgl a c d)) (b + |d|) ∧ (∀ i j, |E i j| ≤ b) ∧ (b = 0 → E = 0) :=
+  ⟨bnd_conj hQ h, bnd_add_sgl h a c d, fun i j => bnd_entry h i j, fun hb => bnd_eq_zero (hb ▸ h)⟩
+
+/-- the hypotheses on `sqrt` and `min` are satisfiable: `Real.sqrt` -/
+example : ∃ F0 : FieldFns ℝ, (∀ x : ℝ, 0 ≤ x → F0.sqrt x * F0.sqrt x = x) ∧ (∀ x : ℝ, 0 ≤ F0.sqrt x) ∧ 0 ≤ F0.minPos :=
+  ⟨⟨Real.sqrt, fun _ _ => 0, 0, 1⟩, fun x hx => Real.mul_self_sqrt hx, fun x => Real.sqrt_nonneg x, by norm_num⟩
+
+/-- non-vacuity of the zero-budget hypothesis of `c09_schur_exact` and of the normal return: for `n = 1` every input returns normally
+    and the budget is `0` (the single 1x1 deflation has no sub-diagonal entry to drop) -/
+example (h : Mat K) : schurDrop F 1 h = 0 ∧ ∃ r, @HessSchur.compute K _ _ _ _ _ (scOfField F) 1 h = Res.ok r := by
+  constructor
+  · simp only [schurDrop]
+    split
+    · simp [C09SS.mainLoopDrop, findSmallSubdiag]
+    · rfl
+  · simp only [HessSchur.compute, HessSchur.core]
+    split
+    · simp [mainLoop, findSmallSubdiag]
+    · simp
+
+end schur_whole_run
+
+section hesseig_on_schur
+variable {K : Type} [Field K] [LinearOrder K] [IsStrictOrderedRing K] (F : FieldFns K)
+open HessSchur C09SS C09Sim C09Eig
+open scoped Matrix
+
+/-- **the pair reported for a 2x2 block with negative discriminant IS its spectrum** (exact non-negative `sqrt`): for the block
+    `[[a, b], [c, d]]` with `((a−d)/2)² + c·b < 0`, `block2` returns `(x, z), (x, −z)` with `2x = a + d`, `z > 0`, `z² = −disc`, and `x ± i z`
+    are the two roots of the characteristic polynomial `λ² − (a+d) λ + (ad − bc)` (real and imaginary part of `χ(x + i z) = 0`). -/
+theorem c09_hesseig_block_eigenvalues (hs : ∀ x : K, 0 ≤ x → F.sqrt x * F.sqrt x = x) (hs0 : ∀ x : K, 0 ≤ F.sqrt x) (a d c b : K)
+    (hd : (@TridiagEigen.half K (scOfField F)) * (a - d) * ((@TridiagEigen.half K (scOfField F)) * (a - d)) + c * b < 0) :
+    ∃ x z : K, @HessEigen.block2 K _ _ _ _ _ (scOfField F) a d c b = ((x, z), (x, -z)) ∧ 0 < z ∧ 2 * x = a + d ∧
+      z * z = -((@TridiagEigen.half K (scOfField F)) * (a - d) * ((@TridiagEigen.half K (scOfField F)) * (a - d)) + c * b) ∧
+      (x * x - z * z) - (a + d) * x + (a * d - b * c) = 0 ∧ 2 * x * z - (a + d) * z = 0 :=
+  block2_char F hs hs0 a d c b hd
+
+/-- **every 2x2 block `UpperHessenbergSchur::compute` leaves unsplit has a negative discriminant** (complex conjugate eigenvalues): loop
+    invariant of the main loop — `split_off_two_rows` rotated every block with `q ≥ 0` to triangular form and set `T(iu,iu−1) = 0`, and
+    the finished rows are never written again.  (`C09Eig.disc F T r = ((T(r,r) − T(r+1,r+1))/2)² + T(r+1,r)·T(r,r+1)`.) -/
+theorem c09_schur_unsplit_negdisc (n : Nat) (h : Mat K) (hw : @C09Mat.WF K h) (hr : h.rows = n) (hc : h.cols = n)
+    (r : HessSchur.Decomp K) (hok : @HessSchur.compute K _ _ _ _ _ (scOfField F) n h = Res.ok r) :
+    ∀ i, i + 1 < n → @Mat.get K (scOfField F) r.t (i + 1) i ≠ 0 → disc F r.t i < 0 :=
+  fun i hi hne => compute_negDisc F n h hw hr hc r hok i (Nat.zero_le _) hi hne
+
+/-- **the eigenvalues `UpperHessenbergEigen` reports are the eigenvalues of the diagonal blocks of `T`** (exact `sqrt`, before the
+    scaling back by `scale`): walking the Schur `T` of an upper Hessenberg input, the extraction emits `(T(i,i), 0)` for every 1x1 block
+    and, for every unsplit 2x2 block, `(x, z), (x, −z)` with `2x = a + d`, `z > 0`, `z² = −disc` — the roots of the block's characteristic
+    polynomial (`C09Eig.EigBlocksAt`; with `c09_schur_quasi_triangular` the blocks exhaust the spectrum of `T`, and with `c09_schur_exact`
+    that of `H` when the budget is `0`). -/
+theorem c09_hesseig_eigenvalues (hs : ∀ x : K, 0 ≤ x → F.sqrt x * F.sqrt x = x) (hs0 : ∀ x : K, 0 ≤ F.sqrt x)
+    (n : Nat) (h : Mat K) (hw : @C09Mat.WF K h) (hr : h.rows = n) (hc : h.cols = n)
+    (r : HessSchur.Decomp K) (hok : @HessSchur.compute K _ _ _ _ _ (scOfField F) n h = Res.ok r) :
+    EigBlocksAt F n r.t 0 (@HessEigen.extract K _ _ _ _ _ (scOfField F) n r.t n 0) :=
+  extract_eigAt F hs hs0 n r.t (compute_negDisc F n h hw hr hc r hok) n 0 (by omega)
+
+/-- **the back-substitution of `doComputeEigenvectors` for a real eigenvalue solves `T y = λ y` EXACTLY** (exact arithmetic, rows
+    `c, c−1, …, 0`; a 1x1 row divides by `T(i,i) − λ`, a 2x2 block is solved by Cramer's rule whose denominator `(re − λ)² + im²` is the
+    determinant of the shifted block because `re ± i·im` are its eigenvalues; the overflow rescaling `col.tail /= t` keeps the equations).
+    `tc` = the work matrix when column `c` is reached (equal to `T` in the columns `≤ c`), `ev` compatible with the block structure of `T`
+    (`C09Eig.EvOK`), `λ = ev_c.re = T(c,c)`.  Result: `y_b` = entry `(b, c)` of the work matrix for `b ≤ c`, `0` below: `Σ_b T(a,b) y_b = λ y_a` for
+    EVERY row `a`, `y_c ≠ 0`, and only column `c` was written.  Hypothesis `hnf`: `λ` is not the diagonal entry of another 1x1 block above
+    row `c` — otherwise the code replaces the zero divisor by `eps·norm`, a deliberate perturbation. -/
+theorem c09_hesseig_backsub_real (n c : Nat) (norm : K) (T tc : Mat K) (ev : Vec (K × K)) (hev : EvOK F n T ev)
+    (hw : @C09Mat.WF K tc) (hr : tc.rows = n) (hcl : tc.cols = n) (hc : c < n) (hc0 : (@HessEigen.evGet K (scOfField F) ev c).2 = 0)
+    (htc : ∀ a b, a < n → b ≤ c → @Mat.get K (scOfField F) tc a b = @Mat.get K (scOfField F) T a b)
+    (hnf : ∀ i, i < c → (@HessEigen.evGet K (scOfField F) ev i).2 = 0 →
+      @Mat.get K (scOfField F) T i i ≠ (@HessEigen.evGet K (scOfField F) ev c).1) :
+    let _ : Sc K := scOfField F
+    let st := HessEigen.realInner n c (HessEigen.evGet ev c).1 norm ev c ⟨zero, zero, c, tc.set c c one⟩
+    let y : ℕ → K := fun b => if b ≤ c then st.t.get b c else 0
+    (∀ a, a < n → ∑ b ∈ Finset.range n, T.get a b * y b = (HessEigen.evGet ev c).1 * y a) ∧ y c ≠ 0 ∧
+    @C09Mat.WF K st.t ∧ st.t.rows = n ∧ st.t.cols = n ∧ (∀ a b, a < n → b ≠ c → st.t.get a b = tc.get a b) :=
+  real_column F n c norm T tc ev hev hw hr hcl hc hc0 htc hnf
+
+/-- the eigenvalue vector extracted from the Schur result of an upper Hessenberg matrix IS compatible with the block structure
+    (`EvOK`: Hessenberg, real value = diagonal entry of a 1x1 block, pair = spectrum of an unsplit block followed by a zero sub-diagonal) -/
+theorem c09_hesseig_evok (hs : ∀ x : K, 0 ≤ x → F.sqrt x * F.sqrt x = x) (hs0 : ∀ x : K, 0 ≤ F.sqrt x)
+    (n : Nat) (h : Mat K) (hw : @C09Mat.WF K h) (hr : h.rows = n) (hc : h.cols = n) (hH : @C09Hess.Hess K (scOfField F) n h)
+    (r : HessSchur.Decomp K) (hok : @HessSchur.compute K _ _ _ _ _ (scOfField F) n h = Res.ok r) :
+    EvOK F n r.t (@HessEigen.evalsOf K _ _ _ _ _ (scOfField F) n r.t) :=
+  compute_evOK F hs hs0 n h hw hr hc hH r hok
+
+/-- **the back transformation is `U y`**: column `j` of `backTransform n U t` is `Σ_{k ≤ j} U(:,k)·t(k,j)` -/
+theorem c09_hesseig_backtransform (n : Nat) (u t : Mat K) (hw : @C09Mat.WF K u) (hr : u.rows = n) (hc : u.cols = n)
+    (a j : Nat) (ha : a < n) (hj : j < n) :
+    @Mat.get K (scOfField F) (@HessEigen.backTransform K _ _ (scOfField F) n u t) a j =
+      ∑ k ∈ Finset.range (j + 1), @Mat.get K (scOfField F) u a k * @Mat.get K (scOfField F) t k j :=
+  backTransform_spec F n u t hw hr hc a j ha hj
+
+/-- **the back-substitution of `doComputeEigenvectors` for a complex pair solves `T y = (p − i q) y` EXACTLY** (exact arithmetic, `eps ≠ 0`,
+    `p = ev_c.re`, `q = ev_c.im < 0`, so `p − i q` is the value with positive imaginary part): the complex branch of `backSub` writes the
+    2x2 eigenvector `y_c = i`, `y_{c−1} = (q − i(d − p))/T(c,c−1)` (or the `__divdc3` form), then `cplxInner` solves the rows `c−2, …, 0` in
+    (re, im) pairs — 1x1 rows by complex division by `T(i,i) − p + i q ≠ 0`, 2x2 blocks by complex Cramer with determinant
+    `vr + i·vi = χ_block(p − i q)`, overflow rescaling of both columns.  Result (columns `c−1` = real parts, `c` = imaginary parts, cut
+    off below row `c`): `Σ_b T(a,b) yr_b = p yr_a + q yi_a`, `Σ_b T(a,b) yi_b = p yi_a − q yr_a` for EVERY row `a`, `yr_c = 0`, `yi_c ≠ 0`,
+    and only the two columns were written.  Hypothesis `GoodC`: `p − i q` is not an eigenvalue of another 2x2 block above (otherwise the
+    code replaces `vr = vi = 0` by `eps·norm·(…)`, a deliberate perturbation). -/
+theorem c09_hesseig_backsub_cplx (heps : F.eps ≠ 0) (n c : Nat) (norm : K) (T tc : Mat K) (ev : Vec (K × K)) (hev : EvOK F n T ev)
+    (hw : @C09Mat.WF K tc) (hr : tc.rows = n) (hcl : tc.cols = n) (hc : c < n)
+    (htc : ∀ a b, a < n → b ≤ c → @Mat.get K (scOfField F) tc a b = @Mat.get K (scOfField F) T a b)
+    (hg : GoodC F ev c) :
+    let _ : Sc K := scOfField F
+    let st := HessEigen.cplxInner n c (HessEigen.evGet ev c).1 (HessEigen.evGet ev c).2 norm ev (c - 1)
+      ⟨zero, zero, zero, c - 1, ((presetT F tc c (HessEigen.evGet ev c).1 (HessEigen.evGet ev c).2).set c (c - 1) zero).set c c one⟩
+    let yr : ℕ → K := fun b => if b ≤ c then st.t.get b (c - 1) else 0
+    let yi : ℕ → K := fun b => if b ≤ c then st.t.get b c else 0
+    (∀ a, a < n → ∑ b ∈ Finset.range n, T.get a b * yr b = (HessEigen.evGet ev c).1 * yr a + (HessEigen.evGet ev c).2 * yi a ∧
+      ∑ b ∈ Finset.range n, T.get a b * yi b = (HessEigen.evGet ev c).1 * yi a - (HessEigen.evGet ev c).2 * yr a) ∧
+    (yr c = 0 ∧ yi c ≠ 0) ∧ @C09Mat.WF K st.t ∧ st.t.rows = n ∧ st.t.cols = n ∧
+    (∀ a b, a < n → b ≠ c - 1 → b ≠ c → st.t.get a b = tc.get a b) :=
+  cplx_columns F heps n c norm T tc ev hev hw hr hcl hc htc hg
+
+/-  FULL STATEMENT (clause "the Hessenberg eigen-solver returns unit-norm eigenpairs with ‖H x − λ x‖ small"), exact-arithmetic form:
+      for EVERY returned pair `(λ_j, x_j)`, real or complex:  `H x_j = λ_j x_j + scale·(U E) y_j`,  `x_j = U y_j`,  `T y_j = (λ_j/scale) y_j`,
+      `‖x_j‖ = 1` after `eigenvectors()`.
+    Proved below (`c09_hesseig_real_eigvec_partial`, `c09_hesseig_cplx_eigvec_partial`): every REAL pair whose back-substitution takes no
+    `w == 0` fallback (`C09Eig.Good`) and every COMPLEX pair whose back-substitution takes no `vr == vi == 0` fallback (`C09Eig.GoodC`) — i.e.
+    every eigenvalue that is not repeated in another diagonal block above it — for a non-zero input with `tnorm(T) ≠ 0`, before the
+    normalisation of `eigenvectors()` (which `c09_eigvec_unit` covers separately).
+    MISSING: repeated eigenvalues (the code perturbs the zero divisor by `eps·norm` on purpose, so `T y = λ y` does NOT hold exactly
+    there), the `tnorm == 0` exit, the composition with `eigenvectors()` (pairing + `normalize`), and rounding. -/
+/-- **`UpperHessenbergEigen::compute`, real eigenpairs, on top of the Schur similarity** (exact arithmetic, exact `sqrt ≥ 0`, `min ≥ 0`;
+    every size, every well-formed non-zero upper Hessenberg input, every run that returns normally): with `Hs = H/scale`,
+    `Uᵀ Hs U = T + E` (`E` within `schurDrop` of `Hs`), for every Good real index `c` there is `y` with `y_c ≠ 0`, `T y = λ y`, the returned
+    column `c` of `m_eivec` equals `U y`, the returned eigenvalue is `(λ·scale, 0)`, and
+      `H x = (λ·scale) x + scale·(U E) y`   — so `H x = λ' x` EXACTLY when the Schur budget is `0`. -/
+theorem c09_hesseig_real_eigvec_partial (hs : ∀ x : K, 0 ≤ x → F.sqrt x * F.sqrt x = x) (hs0 : ∀ x : K, 0 ≤ F.sqrt x)
+    (hmin : 0 ≤ F.minPos) (n : Nat) (h : Mat K) (hw : @C09Mat.WF K h) (hr : h.rows = n) (hc : h.cols = n)
+    (hH : @C09Hess.Hess K (scOfField F) n h) (r : HessEigen.Decomp K)
+    (hok : @HessEigen.compute K _ _ _ _ _ (scOfField F) n h = Res.ok r)
+    (hsc : @Sc.eq K (scOfField F) (@TridiagEigen.maxAbs1 K (scOfField F) h.d) (@zero K (scOfField F)) = false) :
+    ∃ (s : HessSchur.Decomp K) (E : Matrix (Fin n) (Fin n) K),
+      @HessSchur.compute K _ _ _ _ _ (scOfField F) n ⟨h.rows, h.cols, vdivs h.d (@TridiagEigen.maxAbs1 K (scOfField F) h.d)⟩ = Res.ok s ∧
+      Bnd E (schurDrop F n ⟨h.rows, h.cols, vdivs h.d (@TridiagEigen.maxAbs1 K (scOfField F) h.d)⟩) ∧
+      (@Sc.eq K (scOfField F) (@HessEigen.tnorm K _ (scOfField F) n s.t) (@zero K (scOfField F)) = false →
+        ∀ c, (hcn : c < n) → Good F s.t (@HessEigen.evalsOf K _ _ _ _ _ (scOfField F) n s.t) c →
+          ∃ y : Fin n → K, y ⟨c, hcn⟩ ≠ 0 ∧
+            mat n (gf F s.t) *ᵥ y = (@HessEigen.evGet K (scOfField F) (@HessEigen.evalsOf K _ _ _ _ _ (scOfField F) n s.t) c).1 • y ∧
+            (fun a : Fin n => @Mat.get K (scOfField F) r.eivec a.val c) = mat n (gf F s.u) *ᵥ y ∧
+            @HessEigen.evGet K (scOfField F) r.evals c =
+              ((@HessEigen.evGet K (scOfField F) (@HessEigen.evalsOf K _ _ _ _ _ (scOfField F) n s.t) c).1 *
+                @TridiagEigen.maxAbs1 K (scOfField F) h.d, 0) ∧
+            mat n (gf F h) *ᵥ (fun a : Fin n => @Mat.get K (scOfField F) r.eivec a.val c) =
+              (@HessEigen.evGet K (scOfField F) r.evals c).1 • (fun a : Fin n => @Mat.get K (scOfField F) r.eivec a.val c) +
+                @TridiagEigen.maxAbs1 K (scOfField F) h.d • ((mat n (gf F s.u) * E) *ᵥ y)) :=
+  compute_real_pairs F hs hs0 hmin n h hw hr hc hH r hok hsc
+
+/-- **`UpperHessenbergEigen::compute`, complex eigenpairs, on top of the Schur similarity** (exact arithmetic, `eps ≠ 0`): for every GoodC
+    index `c` the value returned at `c` is `(p·scale, q·scale)` (`q < 0`; its conjugate sits at `c − 1`), the returned columns `c − 1`, `c` are
+    `xr = U yr`, `xi = U yi` with `T yr = p yr + q yi`, `T yi = p yi − q yr`, `yi_c ≠ 0`, and with `(λr, λi)` the returned value at `c`:
+      `H xr = λr xr + λi xi + scale·(U E) yr`,   `H xi = λr xi − λi xr + scale·(U E) yi`
+    — i.e. `H (xr + i xi) = (λr − i λi)(xr + i xi) + scale·(U E)(yr + i yi)`: exactly an eigenpair when the Schur budget is `0`. -/
+theorem c09_hesseig_cplx_eigvec_partial (heps : F.eps ≠ 0) (hs : ∀ x : K, 0 ≤ x → F.sqrt x * F.sqrt x = x) (hs0 : ∀ x : K, 0 ≤ F.sqrt x)
+    (hmin : 0 ≤ F.minPos) (n : Nat) (h : Mat K) (hw : @C09Mat.WF K h) (hr : h.rows = n) (hc : h.cols = n)
+    (hH : @C09Hess.Hess K (scOfField F) n h) (r : HessEigen.Decomp K)
+    (hok : @HessEigen.compute K _ _ _ _ _ (scOfField F) n h = Res.ok r)
+    (hsc : @Sc.eq K (scOfField F) (@TridiagEigen.maxAbs1 K (scOfField F) h.d) (@zero K (scOfField F)) = false) :
+    ∃ (s : HessSchur.Decomp K) (E : Matrix (Fin n) (Fin n) K),
+      @HessSchur.compute K _ _ _ _ _ (scOfField F) n ⟨h.rows, h.cols, vdivs h.d (@TridiagEigen.maxAbs1 K (scOfField F) h.d)⟩ = Res.ok s ∧
+      Bnd E (schurDrop F n ⟨h.rows, h.cols, vdivs h.d (@TridiagEigen.maxAbs1 K (scOfField F) h.d)⟩) ∧
+      (@Sc.eq K (scOfField F) (@HessEigen.tnorm K _ (scOfField F) n s.t) (@zero K (scOfField F)) = false →
+        ∀ c, (hcn : c < n) → GoodC F (@HessEigen.evalsOf K _ _ _ _ _ (scOfField F) n s.t) c →
+          ∃ yr yi : Fin n → K, yi ⟨c, hcn⟩ ≠ 0 ∧
+            mat n (gf F s.t) *ᵥ yr = (@HessEigen.evGet K (scOfField F) (@HessEigen.evalsOf K _ _ _ _ _ (scOfField F) n s.t) c).1 • yr +
+              (@HessEigen.evGet K (scOfField F) (@HessEigen.evalsOf K _ _ _ _ _ (scOfField F) n s.t) c).2 • yi ∧
+            mat n (gf F s.t) *ᵥ yi = (@HessEigen.evGet K (scOfField F) (@HessEigen.evalsOf K _ _ _ _ _ (scOfField F) n s.t) c).1 • yi -
+              (@HessEigen.evGet K (scOfField F) (@HessEigen.evalsOf K _ _ _ _ _ (scOfField F) n s.t) c).2 • yr ∧
+            (fun a : Fin n => @Mat.get K (scOfField F) r.eivec a.val (c - 1)) = mat n (gf F s.u) *ᵥ yr ∧
+            (fun a : Fin n => @Mat.get K (scOfField F) r.eivec a.val c) = mat n (gf F s.u) *ᵥ yi ∧
+            @HessEigen.evGet K (scOfField F) r.evals c =
+              ((@HessEigen.evGet K (scOfField F) (@HessEigen.evalsOf K _ _ _ _ _ (scOfField F) n s.t) c).1 * @TridiagEigen.maxAbs1 K (scOfField F) h.d,
+               (@HessEigen.evGet K (scOfField F) (@HessEigen.evalsOf K _ _ _ _ _ (scOfField F) n s.t) c).2 * @TridiagEigen.maxAbs1 K (scOfField F) h.d) ∧
+            mat n (gf F h) *ᵥ (fun a : Fin n => @Mat.get K (scOfField F) r.eivec a.val (c - 1)) =
+              (@HessEigen.evGet K (scOfField F) r.evals c).1 • (fun a : Fin n => @Mat.get K (scOfField F) r.eivec a.val (c - 1)) +
+              (@HessEigen.evGet K (scOfField F) r.evals c).2 • (fun a : Fin n => @Mat.get K (scOfField F) r.eivec a.val c) +
+                @TridiagEigen.maxAbs1 K (scOfField F) h.d • ((mat n (gf F s.u) * E) *ᵥ yr) ∧
+            mat n (gf F h) *ᵥ (fun a : Fin n => @Mat.get K (scOfField F) r.eivec a.val c) =
+              (@HessEigen.evGet K (scOfField F) r.evals c).1 • (fun a : Fin n => @Mat.get K (scOfField F) r.eivec a.val c) -
+              (@HessEigen.evGet K (scOfField F) r.evals c).2 • (fun a : Fin n => @Mat.get K (scOfField F) r.eivec a.val (c - 1)) +
+                @TridiagEigen.maxAbs1 K (scOfField F) h.d • ((mat n (gf F s.u) * E) *ᵥ yi)) :=
+  compute_cplx_pairs F heps hs hs0 hmin n h hw hr hc hH r hok hsc
+
+/-- `GoodC` is satisfiable: the pair in rows `0, 1` is GoodC as soon as its second value has negative imaginary part (no block above) -/
+example (ev : Vec (K × K)) (h1 : (@HessEigen.evGet K (scOfField F) ev 1).2 < 0) : GoodC F ev 1 :=
+  ⟨h1, fun i hi => absurd hi (by omega)⟩
+
+/-- `Good` is satisfiable: the first row is Good as soon as its eigenvalue is real (no 1x1 block above it) -/
+example (T : Mat K) (ev : Vec (K × K)) (h0 : (@HessEigen.evGet K (scOfField F) ev 0).2 = 0) : Good F T ev 0 :=
+  ⟨h0, fun i hi => absurd hi (Nat.not_lt_zero i)⟩
+
+end hesseig_on_schur
 
 section householder
 variable {R : Type} [CommRing R] [Div R] [Sc R]
